@@ -45,6 +45,13 @@ def strategy(tier: str):
     return st.fixed_dictionaries({'listeners': st.integers(1, 4), 'ops': ops})
 
 
+def FLAKY_IS_VIOLATION(case: Any) -> bool:
+    """A pending lookup is one more member of the instance's listener *set*, whose iteration order differs from run to run: a
+    failure that shows for one order only (an observer that happens to be called after the lookup's ServiceInfo) is still a
+    failure - on a correct tree no order makes the observers' view differ from the datagram."""
+    return isinstance(case, dict) and any(op and op[0] == 'lookup' for op in case.get('ops', []))
+
+
 MY_TAGS = ('ingest-', 'listener-')
 
 
